@@ -546,6 +546,12 @@ def remap_by_types(
 
                 scan_for_metadata(r.query_ast, add_md)
                 call_node = fixup_ast_from_modifications(r.query_ast, call_node)
+                # The lambda that was followed carries every modification the call-backs made
+                # (including a replaced call at the root of its body) - it is the one to emit.
+                followed = r.query_ast.args[-1] if isinstance(r.query_ast, ast.Call) else None
+                if isinstance(followed, ast.Lambda) and len(call_node.args) == 1:
+                    call_node = copy.copy(call_node)
+                    call_node.args = [followed]
                 return call_node, Iterable[r.item_type]  # type: ignore
 
             return call_node, r
